@@ -10,7 +10,7 @@ PROP = 'C06'
 
 def struct_name(inst, f):
     p = inst.feats.get(f, {})
-    return p.get('struct_name') or ('E' + ('Iter' if f == 'iter' else 'Names'))
+    return p.get('struct_name') or (inst.enum_name + ('Iter' if f == 'iter' else 'Names'))
 
 def check_iter(inst, V, ctx, checked_steps):
     """returns ('forward', None) | ('cursor', roles) | None"""
